@@ -11,7 +11,9 @@ import (
 	"fmt"
 	"strings"
 
+	capnp "capnproto.org/go/capnp/v3"
 	. "verifh/hc"
+	"verifh/rd"
 )
 
 var mode = flag.String("mode", "c04", "c04 | c05 | c16")
@@ -210,8 +212,75 @@ func (st *genStats) account(p *prog) {
 	}
 }
 
+// validCase: the bytes Message.Marshal produces, split into segments by a frame parser
+// written from the encoding document, and the tree the library itself reads from them.
+func validCase(s *Session) (string, string) {
+	b, err := s.Dst.Marshal()
+	if err != nil {
+		return "V _ 20", "marshal-err"
+	}
+	segs, ok := splitFrame(b)
+	if !ok {
+		return "V _ 20", "bad-frame"
+	}
+	hs := make([]string, len(segs))
+	for i, sg := range segs {
+		hs[i] = Hx(sg)
+	}
+	line := "V " + strings.Join(hs, ",") + " 20"
+	return line, validObs(segs)
+}
+
+func validObs(segs [][]byte) string {
+	return Safely(func() string {
+		m, err := capnp.Unmarshal(frameOf(segs))
+		if err != nil {
+			return "unmarshal-err"
+		}
+		m.TraverseLimit = 1 << 40
+		var sb strings.Builder
+		p, err := m.Root()
+		rd.Walk(&sb, p, err, 1000000, 1000000, 20)
+		return "valid;T" + sb.String()
+	})
+}
+
+func splitFrame(b []byte) ([][]byte, bool) {
+	if len(b) < 8 {
+		return nil, false
+	}
+	n := int(binary.LittleEndian.Uint32(b)) + 1
+	hdr := 4 + 4*n
+	if hdr%8 != 0 {
+		hdr += 4
+	}
+	if len(b) < hdr {
+		return nil, false
+	}
+	var segs [][]byte
+	pos := hdr
+	for i := 0; i < n; i++ {
+		sz := 8 * int(binary.LittleEndian.Uint32(b[4+4*i:]))
+		if pos+sz > len(b) {
+			return nil, false
+		}
+		segs = append(segs, b[pos:pos+sz])
+		pos += sz
+	}
+	return segs, pos == len(b)
+}
+
 func replayCase(line string) (string, string) {
 	f := strings.Fields(line)
+	if len(f) >= 3 && f[0] == "V" {
+		var segs [][]byte
+		if f[1] != "_" {
+			for _, x := range strings.Split(f[1], ",") {
+				segs = append(segs, Unhx(x))
+			}
+		}
+		return "valid", validObs(segs)
+	}
 	if len(f) < 8 {
 		return "bad", "bad-case"
 	}
@@ -278,6 +347,13 @@ func run(out *Out, r *Rand, tier string, replay []string) {
 		}
 		st.account(p)
 		out.Case(kind, line, obs, classOf(p), p.s != nil && len(p.ops) >= 4)
+		if *mode == "c05" && p.s != nil {
+			vl, vo := validCase(p.s)
+			if p.expect != "" && !p.stopped {
+				vl += " expect=" + p.expect
+			}
+			out.Case("valid-"+kind, vl, vo, Cls(strings.Replace(vo, ";", " ", 1)), true)
+		}
 	}
 	out.Extra["x_pointer_census"] = st.ptrKinds
 	out.Extra["x_arenas"] = st.arenas
